@@ -75,6 +75,10 @@ def sparsify(b, rng):
             o["busy"] = True       # a query is in flight on the store's connection pool while the syncer writes
         if o["op"] == "process":
             o["num"] = r(o["num"])
+            if o.get("fault", {}).get("kind") == "read":
+                # r >= 0: which of the reads in front of that write fails (0 / beyond the last one: the write itself);
+                # frac > 0: the read at frac/1000 of all reads of the operation (counted by a probe run on the twin)
+                o["fault"] = dict(kind="read", at=o["fault"]["at"], r=rng.choice([0, rng.randrange(1, 40)]), frac=rng.choice([0, rng.randrange(1, 1000), rng.randrange(1, 1000), rng.randrange(1, 1000)]))
             if o.get("fault", {}).get("kind") == "stmt" and rng.random() < 0.15 and not any(e.get("t") == "v2" for e in o.get("evs", [])):
                 o["fault"] = dict(kind="kill", at=o["fault"]["at"])      # the process is killed inside that statement instead
         elif o["op"] == "reorg":
@@ -178,6 +182,15 @@ def store_check(prop, model_cfgs, gen_cfgs, quick_n, thorough_n, kinds_note, inv
         nproc = sum(1 for b in behs for o in b["ops"] if o["op"] == "process")
         nfault = sum(1 for b in behs for o in b["ops"] if o["op"] == "process" and o.get("fault", {}).get("kind", "none") != "none")
         nreorg = sum(1 for b in behs for o in b["ops"] if o["op"] == "reorg")
+        # failing reads (SQLite authorizer): how many were really injected, and where
+        rfired, rwhere = 0, {}
+        if any(o.get("fault", {}).get("kind") == "read" for b in behs for o in b["ops"]):
+            for line in open(tf):
+                if '"fired":true' in line.replace(" ", ""):
+                    e = json.loads(line)
+                    rfired += 1
+                    k = re.sub(r"\d+", "N", e.get("what", ""))
+                    rwhere[k] = rwhere.get(k, 0) + 1
         res.coverage = dict(
             states=sum(m["distinct"] for m in mcs), transitions=sum(m["generated"] for m in mcs),
             traces_validated_against_impl=len(behs),
@@ -188,7 +201,8 @@ def store_check(prop, model_cfgs, gen_cfgs, quick_n, thorough_n, kinds_note, inv
                  "a full named snapshot judged by TLC; non-trivial = distinct behaviours with at least two operations",
             models=[dict(cfg=m["cfg"], states=m["distinct"], transitions=m["generated"], depth=m["depth"], wall_s=m["wall_s"]) for m in mcs],
             model_invariants=invs, defect_models=cex, generators=gstats, kinds=kinds_note,
-            ops=dict(process=nproc, with_fault=nfault, reorg=nreorg, restart=sum(1 for b in behs for o in b["ops"] if o["op"] == "restart")),
+            ops=dict(process=nproc, with_fault=nfault, reorg=nreorg, restart=sum(1 for b in behs for o in b["ops"] if o["op"] == "restart"),
+                     read_faults_injected=rfired, read_fault_sites=dict(sorted(rwhere.items(), key=lambda kv: -kv[1])[:40])),
             monitor=dict(spec="StoreTrace.tla", lines=info["stats"]["distinct"], wall_s=info["wall_s"]),
             regression_behaviours=len(reg),
         )
@@ -197,7 +211,7 @@ def store_check(prop, model_cfgs, gen_cfgs, quick_n, thorough_n, kinds_note, inv
             import contracts_oracle as CO
             CO.attach(res, sc, prop)
         res.assumptions = list(assumptions) + [
-            "keccak is injective and generated leaf contents are pairwise distinct (names identify hashes)",
+            "keccak is injective and deposits with different atoms have different contents (names identify hashes; a repeated content carries the same atom)",
             ("names are grounded in the real contracts by the contract oracle run (coverage.contract_oracle)" if oracle else
              "the reference implementation in harness/names (plain keccak Merkle tree, Solidity leaf packing) is the ground truth for names; "
              "it is grounded in the real contracts by the contract oracle run of C01/C11"),
